@@ -435,7 +435,7 @@ class RSocketBase(RSocket, RSocketInternal):
                         await transport.send_frame(frame)
                         log_frame(frame, self._log_identifier(), 'Sent')
 
-                        if frame.sent_future is not None:
+                        if frame.sent_future is not None and not frame.sent_future.done():
                             frame.sent_future.set_result(None)
 
                     if self._send_queue.empty():
